@@ -1,4 +1,638 @@
-/- helper lemmas (HeadParse) -/
+/- helper lemmas (HeadParse): line reader, trimming, splitting, request line, header lines, heads. -/
 import TinyHttpModel.WireSpec
+import TinyHttpModel.ConnSpec
 namespace TH
+
+/-! ### findCRLF / readLine -/
+
+theorem findCRLF_append (l rest : Bytes) (h : ∀ b ∈ l, b ≠ 10) :
+    findCRLF (l ++ 13 :: 10 :: rest) = some (l, rest) := by
+  induction l with
+  | nil => simp [findCRLF]
+  | cons b l ih =>
+    have ih' := ih (fun x hx => h x (List.mem_cons_of_mem _ hx))
+    rw [List.cons_append, findCRLF, ih']
+    intro rest' _ heq
+    cases l with
+    | nil => simp at heq
+    | cons c l' =>
+      simp at heq
+      exact absurd heq.1 (h c (by simp))
+
+theorem readLine_line (l rest : Bytes) (fin : EndState) (h : ∀ b ∈ l, b ≠ 10 ∧ b < 128) :
+    readLine (l ++ 13 :: 10 :: rest) fin = .line l rest := by
+  have ha : isAscii l = true := by
+    simp only [isAscii, List.all_eq_true, decide_eq_true_eq]
+    exact fun b hb => (h b hb).2
+  simp [readLine, findCRLF_append l rest (fun b hb => (h b hb).1), ha]
+
+theorem readLine_notAscii (l rest : Bytes) (fin : EndState)
+    (hl : ∀ b ∈ l, b ≠ 10) (hn : ∃ b ∈ l, 128 ≤ b) :
+    readLine (l ++ 13 :: 10 :: rest) fin = .notAscii rest := by
+  have ha : isAscii l = false := by
+    obtain ⟨b, hb, h128⟩ := hn
+    simp only [isAscii, List.all_eq_false, decide_eq_true_eq]
+    exact ⟨b, hb, by omega⟩
+  simp [readLine, findCRLF_append l rest hl, ha]
+
+/-! ### trimStart / trimEnd / trim -/
+
+theorem trimStart_ws_append (w l : Bytes) (hw : ∀ b ∈ w, isWs b = true) :
+    trimStart (w ++ l) = trimStart l := by
+  induction w with
+  | nil => rfl
+  | cons b w ih =>
+    have hb : isWs b = true := hw b (by simp)
+    simp only [List.cons_append, trimStart, hb, if_true]
+    exact ih (fun x hx => hw x (List.mem_cons_of_mem _ hx))
+
+theorem trimStart_length_le (l : Bytes) : (trimStart l).length ≤ l.length := by
+  induction l with
+  | nil => simp [trimStart]
+  | cons b l ih =>
+    simp only [trimStart]
+    split
+    · simp only [List.length_cons]; omega
+    · exact Nat.le_refl _
+
+theorem trimStart_eq_self_of_length (l : Bytes) (h : (trimStart l).length = l.length) :
+    trimStart l = l := by
+  cases l with
+  | nil => rfl
+  | cons b l =>
+    simp only [trimStart] at h ⊢
+    split
+    · rename_i hb
+      rw [if_pos hb] at h
+      have := trimStart_length_le l
+      simp only [List.length_cons] at h
+      omega
+    · rfl
+
+theorem trimEnd_ws (w : Bytes) (hw : ∀ b ∈ w, isWs b = true) : trimEnd w = [] := by
+  induction w with
+  | nil => rfl
+  | cons b w ih =>
+    have hb : isWs b = true := hw b (by simp)
+    simp [trimEnd, ih (fun x hx => hw x (List.mem_cons_of_mem _ hx)), hb]
+
+theorem trimEnd_cons (b : Nat) (l : Bytes) :
+    trimEnd (b :: l) = if trimEnd l = [] then (if isWs b then [] else [b]) else b :: trimEnd l := by
+  rw [trimEnd]
+  split
+  · rename_i h; simp [h]
+  · rename_i h; rw [if_neg (fun e => h e)]
+
+theorem trimEnd_append_ws (l w : Bytes) (hw : ∀ b ∈ w, isWs b = true) :
+    trimEnd (l ++ w) = trimEnd l := by
+  induction l with
+  | nil => simp [trimEnd_ws w hw, trimEnd]
+  | cons b l ih => rw [List.cons_append, trimEnd_cons, trimEnd_cons, ih]
+
+theorem trimEnd_append_of_ne_nil (a b : Bytes) (h : trimEnd b ≠ []) :
+    trimEnd (a ++ b) = a ++ trimEnd b := by
+  induction a with
+  | nil => rfl
+  | cons x a ih =>
+    rw [List.cons_append, trimEnd_cons, ih]
+    simp [h]
+
+theorem trimEnd_length_le (l : Bytes) : (trimEnd l).length ≤ l.length := by
+  induction l with
+  | nil => simp [trimEnd]
+  | cons b l ih =>
+    rw [trimEnd_cons]
+    split
+    · split <;> simp
+    · simp only [List.length_cons]; omega
+
+theorem mem_of_mem_trimEnd (l : Bytes) : ∀ b ∈ trimEnd l, b ∈ l := by
+  induction l with
+  | nil => simp [trimEnd]
+  | cons x l ih =>
+    rw [trimEnd_cons]
+    intro b hb
+    split at hb
+    · split at hb
+      · simp at hb
+      · simp at hb; simp [hb]
+    · rcases List.mem_cons.1 hb with h | h
+      · simp [h]
+      · exact List.mem_cons_of_mem _ (ih b h)
+
+/-- `trimEnd` never removes a leading non-whitespace byte. -/
+theorem trimEnd_cons_nonws (b : Nat) (r : Bytes) (hb : isWs b = false) :
+    ∃ t, trimEnd (b :: r) = b :: t := by
+  rw [trimEnd_cons]
+  split
+  · exact ⟨[], by simp [hb]⟩
+  · exact ⟨_, rfl⟩
+
+theorem trimEnd_cons_cases (w : Nat) (l : Bytes) :
+    trimEnd (w :: l) = [] ∨ ∃ t, trimEnd (w :: l) = w :: t := by
+  rw [trimEnd_cons]
+  split
+  · split
+    · exact .inl rfl
+    · exact .inr ⟨[], rfl⟩
+  · exact .inr ⟨_, rfl⟩
+
+/-- `trim v = v` means neither end can be trimmed. -/
+theorem trim_eq_self (v : Bytes) (h : trim v = v) : trimStart v = v ∧ trimEnd v = v := by
+  have h1 := trimEnd_length_le (trimStart v)
+  have h2 := trimStart_length_le v
+  have hs : trimStart v = v := by
+    apply trimStart_eq_self_of_length
+    have : (trimEnd (trimStart v)).length = v.length := by
+      unfold trim at h; rw [h]
+    omega
+  refine ⟨hs, ?_⟩
+  unfold trim at h; rw [hs] at h; exact h
+
+/-! ### splitOn / splitFirst -/
+
+theorem splitOn_ne_nil (c : Nat) (l : Bytes) : splitOn c l ≠ [] := by
+  induction l with
+  | nil => simp [splitOn]
+  | cons b l ih =>
+    rw [splitOn]
+    split
+    · simp
+    · split <;> simp
+
+theorem splitOn_none (c : Nat) (l : Bytes) (h : ∀ b ∈ l, b ≠ c) : splitOn c l = [l] := by
+  induction l with
+  | nil => rfl
+  | cons b l ih =>
+    have hb : b ≠ c := h b (by simp)
+    rw [splitOn, if_neg hb, ih (fun x hx => h x (List.mem_cons_of_mem _ hx))]
+
+theorem splitOn_append (c : Nat) (l r : Bytes) (h : ∀ b ∈ l, b ≠ c) :
+    splitOn c (l ++ c :: r) = l :: splitOn c r := by
+  induction l with
+  | nil => simp [splitOn]
+  | cons b l ih =>
+    have hb : b ≠ c := h b (by simp)
+    rw [List.cons_append, splitOn, if_neg hb, ih (fun x hx => h x (List.mem_cons_of_mem _ hx))]
+
+theorem splitFirst_append' (c : Nat) (l r : Bytes) (h : ∀ b ∈ l, b ≠ c) :
+    splitFirst c (l ++ c :: r) = (l, some r) := by
+  induction l with
+  | nil => simp [splitFirst]
+  | cons b l ih =>
+    have hb : b ≠ c := h b (by simp)
+    rw [List.cons_append, splitFirst, if_neg hb, ih (fun x hx => h x (List.mem_cons_of_mem _ hx))]
+
+theorem splitFirst_none' (c : Nat) (l : Bytes) (h : ∀ b ∈ l, b ≠ c) :
+    splitFirst c l = (l, none) := by
+  induction l with
+  | nil => rfl
+  | cons b l ih =>
+    have hb : b ≠ c := h b (by simp)
+    rw [splitFirst, if_neg hb, ih (fun x hx => h x (List.mem_cons_of_mem _ hx))]
+
+
+/-! ### request line -/
+
+theorem lookupVersion_none (tok : Bytes) (tbl : List (Bytes × (Nat × Nat)))
+    (h : ∀ e ∈ tbl, e.1 ≠ tok) : lookupVersion tok tbl = none := by
+  induction tbl with
+  | nil => rfl
+  | cons e tbl ih =>
+    obtain ⟨lit, a, b⟩ := e
+    have he : lit ≠ tok := h (lit, a, b) (by simp)
+    rw [lookupVersion, if_neg he]
+    exact ih (fun x hx => h x (List.mem_cons_of_mem _ hx))
+
+theorem parseRequestLine_fields (m u tok : Bytes) (ver : Version)
+    (hm : m ≠ []) (hmw : ∀ b ∈ m, isWs b = false) (huw : ∀ b ∈ u, isWs b = false)
+    (htrim : trimEnd tok = tok) (hne : tok ≠ []) (hsp : ∀ b ∈ tok, b ≠ 32)
+    (hpv : parseVersion tok = some ver) :
+    parseRequestLine (m ++ 32 :: (u ++ 32 :: tok)) = some (⟨m⟩, u, ver) := by
+  have h32 : isWs 32 = true := by decide
+  have hm32 : ∀ b ∈ m, b ≠ 32 := fun b hb e => by have := hmw b hb; rw [e, h32] at this; cases this
+  have hu32 : ∀ b ∈ u, b ≠ 32 := fun b hb e => by have := huw b hb; rw [e, h32] at this; cases this
+  have htrimL : trim (m ++ 32 :: (u ++ 32 :: tok)) = m ++ 32 :: (u ++ 32 :: tok) := by
+    unfold trim
+    have hs : trimStart (m ++ 32 :: (u ++ 32 :: tok)) = m ++ 32 :: (u ++ 32 :: tok) := by
+      cases m with
+      | nil => exact absurd rfl hm
+      | cons m0 m' =>
+        have : isWs m0 = false := hmw m0 (by simp)
+        simp [trimStart, this]
+    rw [hs]
+    have : m ++ 32 :: (u ++ 32 :: tok) = (m ++ 32 :: (u ++ [32])) ++ tok := by simp
+    rw [this, trimEnd_append_of_ne_nil _ _ (by rw [htrim]; exact hne), htrim]
+  unfold parseRequestLine
+  rw [htrimL, splitOn_append 32 m _ hm32, splitOn_append 32 u _ hu32, splitOn_none 32 tok hsp]
+  simp [hpv]
+
+theorem versionToken_10 : Spec.versionToken ⟨1, 0⟩ = b!"HTTP/1.0" := by decide
+theorem versionToken_11 : Spec.versionToken ⟨1, 1⟩ = b!"HTTP/1.1" := by decide
+
+theorem parseRequestLine_render (m u : Bytes) (v : Version)
+    (hm : m ≠ []) (hmw : ∀ b ∈ m, isWs b = false) (huw : ∀ b ∈ u, isWs b = false)
+    (hv : v = ⟨1, 0⟩ ∨ v = ⟨1, 1⟩) :
+    parseRequestLine (m ++ 32 :: (u ++ 32 :: Spec.versionToken v)) = some (⟨m⟩, u, v) := by
+  rcases hv with rfl | rfl
+  · rw [versionToken_10]
+    exact parseRequestLine_fields m u _ _ hm hmw huw (by decide) (by decide) (by decide) (by decide)
+  · rw [versionToken_11]
+    exact parseRequestLine_fields m u _ _ hm hmw huw (by decide) (by decide) (by decide) (by decide)
+
+theorem versionToken_safe (v : Version) (hv : v = ⟨1, 0⟩ ∨ v = ⟨1, 1⟩) :
+    ∀ b ∈ Spec.versionToken v, b ≠ 10 ∧ b < 128 := by
+  rcases hv with rfl | rfl
+  · rw [versionToken_10]; decide
+  · rw [versionToken_11]; decide
+
+/-! ### header line -/
+
+theorem parseHeaderLine_render (n v o1 o2 : Bytes)
+    (hnw : ∀ b ∈ n, isWs b = false) (hnc : ∀ b ∈ n, b ≠ 58) (hv : trim v = v)
+    (ho1 : ∀ b ∈ o1, isWs b = true) (ho2 : ∀ b ∈ o2, isWs b = true) :
+    parseHeaderLine (n ++ [58] ++ o1 ++ v ++ o2) = some ⟨n, v⟩ := by
+  obtain ⟨hvs, hve⟩ := trim_eq_self v hv
+  have hany : n.any isWs = false := by
+    rw [List.any_eq_false]; intro b hb; simp [hnw b hb]
+  unfold parseHeaderLine
+  rw [trimEnd_append_ws _ o2 ho2]
+  by_cases hvn : v = []
+  · subst hvn
+    have h1 : trimEnd (n ++ [58] ++ o1 ++ []) = n ++ [58] := by
+      rw [List.append_nil, trimEnd_append_ws _ o1 ho1, trimEnd_append_of_ne_nil n [58] (by decide)]
+      rfl
+    rw [h1, splitFirst_append' 58 n [] hnc]
+    simp [hany, trim, trimStart, trimEnd]
+  · have h1 : trimEnd (n ++ [58] ++ o1 ++ v) = n ++ 58 :: (o1 ++ v) := by
+      rw [trimEnd_append_of_ne_nil _ v (by rw [hve]; exact hvn), hve]; simp
+    rw [h1, splitFirst_append' 58 n _ hnc]
+    have h2 : trim (o1 ++ v) = v := by
+      unfold trim; rw [trimStart_ws_append o1 v ho1, hvs, hve]
+    simp [hany, h2]
+
+/-! ### the header loop -/
+
+theorem isOwsList_ws (o : Bytes) (h : Spec.isOwsList o = true) :
+    (∀ b ∈ o, isWs b = true) ∧ (∀ b ∈ o, b ≠ 10 ∧ b < 128) := by
+  simp only [Spec.isOwsList, List.all_eq_true, Bool.or_eq_true, beq_iff_eq] at h
+  constructor
+  · intro b hb; rcases h b hb with rfl | rfl <;> decide
+  · intro b hb; rcases h b hb with rfl | rfl <;> decide
+
+theorem lineSafe_elim (l : Bytes) (h : Spec.lineSafe l = true) : ∀ b ∈ l, b ≠ 10 ∧ b < 128 := by
+  simp only [Spec.lineSafe, List.all_eq_true, Bool.and_eq_true, bne_iff_ne, decide_eq_true_eq] at h
+  exact fun b hb => ⟨(h b hb).1.2, (h b hb).2⟩
+
+theorem wfReqHeader_elim (h : Header) (hw : Spec.wfReqHeader h = true) :
+    (∀ b ∈ h.name, b ≠ 10 ∧ b < 128) ∧ (∀ b ∈ h.name, isWs b = false) ∧ (∀ b ∈ h.name, b ≠ 58) ∧
+      (∀ b ∈ h.value, b ≠ 10 ∧ b < 128) ∧ trim h.value = h.value := by
+  simp only [Spec.wfReqHeader, Bool.and_eq_true, Bool.not_eq_true', beq_iff_eq] at hw
+  obtain ⟨⟨⟨⟨h1, h2⟩, h3⟩, h4⟩, h5⟩ := hw
+  refine ⟨lineSafe_elim _ h1, ?_, ?_, lineSafe_elim _ h4, h5⟩
+  · rw [List.any_eq_false] at h2
+    intro b hb; simpa using h2 b hb
+  · intro b hb e
+    subst e
+    rw [List.contains_eq_mem] at h3
+    simp [hb] at h3
+
+/-- one rendered header line, followed by anything, is read back as that header. -/
+theorem readLine_renderHeader (h : Header) (o : Bytes × Bytes) (rest : Bytes) (fin : EndState)
+    (hw : Spec.wfReqHeader h = true)
+    (ho : Spec.isOwsList o.1 = true ∧ Spec.isOwsList o.2 = true) :
+    ∃ l, readLine (Spec.renderHeader h o ++ rest) fin = .line l rest ∧ l.isEmpty = false ∧
+      parseHeaderLine l = some h := by
+  obtain ⟨hn1, hn2, hn3, hv1, hv2⟩ := wfReqHeader_elim h hw
+  obtain ⟨ho1w, ho1s⟩ := isOwsList_ws o.1 ho.1
+  obtain ⟨ho2w, ho2s⟩ := isOwsList_ws o.2 ho.2
+  refine ⟨h.name ++ [58] ++ o.1 ++ h.value ++ o.2, ?_, ?_, ?_⟩
+  · have : Spec.renderHeader h o ++ rest = (h.name ++ [58] ++ o.1 ++ h.value ++ o.2) ++ 13 :: 10 :: rest := by
+      simp [Spec.renderHeader, crlf]
+    rw [this]
+    apply readLine_line
+    intro b hb
+    simp only [List.mem_append, List.mem_singleton] at hb
+    rcases hb with (((hb | hb) | hb) | hb) | hb
+    · exact hn1 b hb
+    · subst hb; decide
+    · exact ho1s b hb
+    · exact hv1 b hb
+    · exact ho2s b hb
+  · cases hn : h.name <;> simp
+  · exact parseHeaderLine_render h.name h.value o.1 o.2 hn2 hn3 hv2 ho1w ho2w
+
+theorem readHeaders_render (ver : Version) (rest : Bytes) (fin : EndState) :
+    ∀ (hs : List Header) (ows : List (Bytes × Bytes)) (fuel : Nat), hs.length < fuel →
+      (∀ h ∈ hs, Spec.wfReqHeader h = true) →
+      (∀ o ∈ ows, Spec.isOwsList o.1 = true ∧ Spec.isOwsList o.2 = true) →
+      readHeaders fuel ver (Spec.renderHeaders hs ows ++ 13 :: 10 :: rest) fin = .ok (hs, rest) := by
+  intro hs
+  induction hs with
+  | nil =>
+    intro ows fuel hf _ _
+    cases fuel with
+    | zero => omega
+    | succ fuel =>
+      have : Spec.renderHeaders [] ows = [] := by cases ows <;> rfl
+      rw [this, readHeaders, readLine_line [] rest fin (by simp)]
+      simp
+  | cons h hs ih =>
+    intro ows fuel hf hwf hows
+    cases fuel with
+    | zero => omega
+    | succ fuel =>
+      have hf' : hs.length < fuel := by simp only [List.length_cons] at hf; omega
+      have hwf' : ∀ x ∈ hs, Spec.wfReqHeader x = true := fun x hx => hwf x (List.mem_cons_of_mem _ hx)
+      have key : ∀ (o : Bytes × Bytes) (os : List (Bytes × Bytes)),
+          (Spec.isOwsList o.1 = true ∧ Spec.isOwsList o.2 = true) →
+          (∀ o ∈ os, Spec.isOwsList o.1 = true ∧ Spec.isOwsList o.2 = true) →
+          readHeaders (fuel + 1) ver
+            (Spec.renderHeader h o ++ Spec.renderHeaders hs os ++ 13 :: 10 :: rest) fin = .ok (h :: hs, rest) := by
+        intro o os ho hos
+        obtain ⟨l, hl, hle, hp⟩ := readLine_renderHeader h o (Spec.renderHeaders hs os ++ 13 :: 10 :: rest) fin
+          (hwf h (by simp)) ho
+        rw [List.append_assoc, readHeaders, hl]
+        simp only [hle, hp, ih os fuel hf' hwf' hos]
+        simp
+      cases ows with
+      | nil => exact key ([], []) [] (by decide) (by simp)
+      | cons o os => exact key o os (hows o (by simp)) (fun x hx => hows x (List.mem_cons_of_mem _ hx))
+
+theorem length_le_renderHeaders : ∀ (hs : List Header) (ows : List (Bytes × Bytes)),
+    hs.length ≤ (Spec.renderHeaders hs ows).length := by
+  intro hs
+  induction hs with
+  | nil => intro ows; simp
+  | cons h hs ih =>
+    intro ows
+    cases ows with
+    | nil =>
+      have := ih []
+      simp only [Spec.renderHeaders, Spec.renderHeader, List.length_append, List.length_cons, List.length_nil]
+      omega
+    | cons o os =>
+      have := ih os
+      simp only [Spec.renderHeaders, Spec.renderHeader, List.length_append, List.length_cons, List.length_nil]
+      omega
+
+/-! ### whole heads -/
+
+theorem wfHead_elim (h : Head) (hwf : Spec.wfHead h = true) :
+    h.method.token ≠ [] ∧ (∀ b ∈ h.method.token, b ≠ 10 ∧ b < 128) ∧ (∀ b ∈ h.method.token, isWs b = false) ∧
+      (∀ b ∈ h.url, b ≠ 10 ∧ b < 128) ∧ (∀ b ∈ h.url, isWs b = false) ∧
+      (h.version = ⟨1, 0⟩ ∨ h.version = ⟨1, 1⟩) ∧ (∀ x ∈ h.headers, Spec.wfReqHeader x = true) := by
+  simp only [Spec.wfHead, Bool.and_eq_true, Bool.not_eq_true', Bool.or_eq_true, beq_iff_eq,
+    List.all_eq_true] at hwf
+  obtain ⟨⟨⟨⟨⟨⟨⟨h1, h2⟩, h3⟩, _⟩, h5⟩, h6⟩, h7⟩, h8⟩ := hwf
+  refine ⟨?_, lineSafe_elim _ h2, ?_, lineSafe_elim _ h5, ?_, h7, h8⟩
+  · intro e; rw [e] at h1; simp at h1
+  · rw [List.any_eq_false] at h3
+    intro b hb; simpa using h3 b hb
+  · rw [List.any_eq_false] at h6
+    intro b hb; simpa using h6 b hb
+
+theorem readHead_render (h : Head) (ows : List (Bytes × Bytes)) (rest : Bytes) (fin : EndState)
+    (hwf : Spec.wfHead h = true)
+    (hows : ∀ o ∈ ows, Spec.isOwsList o.1 = true ∧ Spec.isOwsList o.2 = true) :
+    readHead (Spec.renderHead h ows ++ rest) fin = .ok (h, rest) := by
+  obtain ⟨hm0, hm1, hm2, hu1, hu2, hv, hhs⟩ := wfHead_elim h hwf
+  have hbytes : Spec.renderHead h ows ++ rest =
+      (h.method.token ++ 32 :: (h.url ++ 32 :: Spec.versionToken h.version)) ++ 13 :: 10 ::
+        (Spec.renderHeaders h.headers ows ++ 13 :: 10 :: rest) := by
+    simp [Spec.renderHead, crlf]
+  have hline : ∀ b ∈ h.method.token ++ 32 :: (h.url ++ 32 :: Spec.versionToken h.version), b ≠ 10 ∧ b < 128 := by
+    intro b hb
+    simp only [List.mem_append, List.mem_cons] at hb
+    rcases hb with hb | rfl | hb | rfl | hb
+    · exact hm1 b hb
+    · decide
+    · exact hu1 b hb
+    · decide
+    · exact versionToken_safe _ hv b hb
+  rw [hbytes, readHead, readLine_line _ _ fin hline]
+  simp only [parseRequestLine_render _ _ _ hm0 hm2 hu2 hv]
+  rw [readHeaders_render h.version rest fin h.headers ows _ ?_ hhs hows]
+  · have hlen := length_le_renderHeaders h.headers ows
+    simp only [List.length_append]
+    omega
+
+/-! ### rejected lines -/
+
+theorem parseRequestLine_short (line : Bytes)
+    (h : (splitOn 32 (trim line)).length < 3) : parseRequestLine line = none := by
+  unfold parseRequestLine
+  split
+  · rename_i heq; rw [heq] at h; simp only [List.length_cons] at h; omega
+  · rfl
+
+theorem parseRequestLine_unknown_version (m p v : Bytes) (rest : List Bytes) (line : Bytes)
+    (hs : splitOn 32 (trim line) = m :: p :: v :: rest)
+    (hv : ∀ e ∈ Extracted.versionTable, e.1 ≠ v) : parseRequestLine line = none := by
+  unfold parseRequestLine
+  rw [hs]
+  simp only [parseVersion, lookupVersion_none v _ hv]
+
+theorem parseHeaderLine_no_colon (line : Bytes) (h : line.contains 58 = false) :
+    parseHeaderLine line = none := by
+  have hl : ∀ b ∈ trimEnd line, b ≠ 58 := by
+    intro b hb e
+    subst e
+    have := mem_of_mem_trimEnd line 58 hb
+    rw [List.contains_eq_mem] at h
+    simp [this] at h
+  unfold parseHeaderLine
+  rw [splitFirst_none' 58 _ hl]
+
+theorem parseHeaderLine_ws_in_name (line : Bytes)
+    (h : ((splitFirst 58 (trimEnd line)).1.any isWs) = true) : parseHeaderLine line = none := by
+  unfold parseHeaderLine
+  generalize splitFirst 58 (trimEnd line) = p at h
+  obtain ⟨n, o⟩ := p
+  cases o with
+  | none => rfl
+  | some v => simp only at h; simp [h]
+
+theorem isWs_ne_colon (w : Nat) (hw : isWs w = true) : w ≠ 58 := by
+  intro e; subst e; revert hw; decide
+
+theorem parseHeaderLine_ws_before_colon (name value : Bytes) (w : Nat) (hw : isWs w = true)
+    (hn : name.contains 58 = false) :
+    parseHeaderLine (name ++ [w] ++ [58] ++ value) = none := by
+  apply parseHeaderLine_ws_in_name
+  obtain ⟨t, ht⟩ := trimEnd_cons_nonws 58 value (by decide)
+  have h1 : trimEnd (name ++ [w] ++ [58] ++ value) = (name ++ [w]) ++ 58 :: t := by
+    have : name ++ [w] ++ [58] ++ value = (name ++ [w]) ++ 58 :: value := by simp
+    rw [this, trimEnd_append_of_ne_nil _ _ (by rw [ht]; simp), ht]
+  have h2 : ∀ b ∈ name ++ [w], b ≠ 58 := by
+    intro b hb
+    simp only [List.mem_append, List.mem_singleton] at hb
+    rcases hb with hb | rfl
+    · intro e; subst e
+      rw [List.contains_eq_mem] at hn
+      simp [hb] at hn
+    · exact isWs_ne_colon _ hw
+  rw [h1, splitFirst_append' 58 _ t h2]
+  simp [hw]
+
+theorem parseHeaderLine_leading_ws (w : Nat) (l : Bytes) (hw : isWs w = true) :
+    parseHeaderLine (w :: l) = none := by
+  rcases trimEnd_cons_cases w l with h | ⟨t, ht⟩
+  · unfold parseHeaderLine; rw [h]; rfl
+  · apply parseHeaderLine_ws_in_name
+    rw [ht, splitFirst, if_neg (isWs_ne_colon w hw)]
+    simp [hw]
+
+/-- a head whose k-th header line is rejected fails with `wrongHeader`. -/
+theorem readHeaders_rejected_line (ver : Version) (bad rest : Bytes) (fin : EndState)
+    (hbad : bad ≠ [] ∧ (∀ b ∈ bad, b ≠ 10 ∧ b < 128) ∧ parseHeaderLine bad = none) :
+    ∀ (good : List Bytes) (fuel : Nat),
+      (∀ l ∈ good, l ≠ [] ∧ (∀ b ∈ l, b ≠ 10 ∧ b < 128) ∧ (parseHeaderLine l).isSome = true) →
+      good.length < fuel →
+      readHeaders fuel ver ((good.map (· ++ crlf)).flatten ++ bad ++ crlf ++ rest) fin
+        = .error (.wrongHeader ver) := by
+  intro good
+  induction good with
+  | nil =>
+    intro fuel _ hf
+    cases fuel with
+    | zero => omega
+    | succ fuel =>
+      have : ([].map (· ++ crlf)).flatten ++ bad ++ crlf ++ rest = bad ++ 13 :: 10 :: rest := by
+        simp [crlf]
+      rw [this, readHeaders, readLine_line bad rest fin hbad.2.1]
+      have hne : bad.isEmpty = false := by
+        cases hb : bad with
+        | nil => exact absurd hb hbad.1
+        | cons _ _ => rfl
+      simp [hne, hbad.2.2]
+  | cons g good ih =>
+    intro fuel hg hf
+    cases fuel with
+    | zero => omega
+    | succ fuel =>
+      obtain ⟨hg1, hg2, hg3⟩ := hg g (by simp)
+      have : ((g :: good).map (· ++ crlf)).flatten ++ bad ++ crlf ++ rest
+          = g ++ 13 :: 10 :: ((good.map (· ++ crlf)).flatten ++ bad ++ crlf ++ rest) := by
+        simp [crlf]
+      rw [this, readHeaders, readLine_line g _ fin hg2]
+      have hne : g.isEmpty = false := by
+        cases hb : g with
+        | nil => exact absurd hb hg1
+        | cons _ _ => rfl
+      obtain ⟨hd, hhd⟩ := Option.isSome_iff_exists.1 hg3
+      simp only [hne, hhd]
+      rw [ih fuel (fun l hl => hg l (List.mem_cons_of_mem _ hl))
+        (by simp only [List.length_cons] at hf; omega)]
+      simp
+
+/-! ### method table -/
+
+theorem methodTable_eq : Extracted.methodTable = Spec.standardMethods := by decide
+
+theorem lookupMethod_eq_find (tok : Bytes) : ∀ tbl : List (Bytes × Bytes),
+    lookupMethod tok tbl =
+      (match tbl.find? (·.1 == tok) with
+       | some (_, k) => k
+       | none => b!"NonStandard") := by
+  intro tbl
+  induction tbl with
+  | nil => rfl
+  | cons e tbl ih =>
+    obtain ⟨lit, ctor⟩ := e
+    rw [lookupMethod, List.find?_cons]
+    by_cases h : lit = tok
+    · simp [h]
+    · have : ((lit, ctor).1 == tok) = false := by simpa using h
+      rw [if_neg h, this, ih]
+
+theorem method_kind_eq (tok : Bytes) : (Method.mk tok).kind = Spec.methodKind tok := by
+  unfold Method.kind Spec.methodKind
+  rw [methodTable_eq, lookupMethod_eq_find]
+  rfl
+
+/-! ### Content-Length -/
+
+theorem ofDecAux_digits : ∀ (l : Bytes) (acc n : Nat), ofDecAux l acc = some n →
+    ∀ b ∈ l, 48 ≤ b ∧ b ≤ 57 := by
+  intro l
+  induction l with
+  | nil => intro _ _ _ b hb; simp at hb
+  | cons x l ih =>
+    intro acc n h b hb
+    rw [ofDecAux] at h
+    unfold decVal at h
+    split at h
+    · rename_i d hd
+      split at hd
+      · rename_i hx
+        rcases List.mem_cons.1 hb with rfl | hb'
+        · exact hx
+        · exact ih _ _ h b hb'
+      · cases hd
+    · cases h
+
+theorem ofDec_digits (v : Bytes) (n : Nat) (h : ofDec v = some n) :
+    v ≠ [] ∧ ∀ b ∈ v, 48 ≤ b ∧ b ≤ 57 := by
+  cases v with
+  | nil => simp [ofDec] at h
+  | cons x l =>
+    refine ⟨by simp, ?_⟩
+    exact ofDecAux_digits (x :: l) 0 n (by simpa [ofDec] using h)
+
+theorem strictContentLength_iff (v : Bytes) (n : Nat) :
+    strictContentLength v = some n ↔
+      (v ≠ [] ∧ (∀ b ∈ v, 48 ≤ b ∧ b ≤ 57) ∧ ofDec v = some n ∧ n ≤ usizeMax) := by
+  unfold strictContentLength
+  constructor
+  · intro h
+    split at h
+    · rename_i m hm
+      split at h
+      · rename_i hle
+        have hmn : m = n := by simpa using h
+        subst hmn
+        obtain ⟨h1, h2⟩ := ofDec_digits v m hm
+        exact ⟨h1, h2, hm, hle⟩
+      · cases h
+    · cases h
+  · rintro ⟨_, _, hd, hle⟩
+    rw [hd]
+    simp [hle]
+
+theorem strictContentLength_non_digit (v : Bytes) (b : Nat) (hb : b ∈ v) (hd : b < 48 ∨ 57 < b) :
+    strictContentLength v = none := by
+  cases h : strictContentLength v with
+  | none => rfl
+  | some n =>
+    have := ((strictContentLength_iff v n).1 h).2.1 b hb
+    omega
+
+theorem framingOf_bad_content_length (hs : List Header) (h : Header)
+    (hm : h ∈ hs) (hn : h.is b!"Content-Length" = true)
+    (hv : strictContentLength h.value = none) :
+    framingOf hs = .error .badContentLength := by
+  unfold framingOf
+  simp only []
+  rw [if_pos]
+  rw [List.any_eq_true]
+  exact ⟨h, List.mem_filter.2 ⟨hm, hn⟩, by rw [hv]; rfl⟩
+
+theorem framingOf_expectation_failed (hs : List Header) (e : Header)
+    (hcl : ∀ h ∈ hs, h.is b!"Content-Length" = true → (strictContentLength h.value).isSome = true)
+    (he : findHeader hs b!"Expect" = some e)
+    (hv : eqIgnoreCase e.value b!"100-continue" = false) :
+    framingOf hs = .error .expectationFailed := by
+  unfold framingOf
+  simp only []
+  rw [if_neg]
+  · simp [he, hv]
+  · rw [List.any_eq_true]
+    rintro ⟨h, hmem, hnone⟩
+    obtain ⟨hm, hn⟩ := List.mem_filter.1 hmem
+    have := hcl h hm hn
+    rw [Option.isNone_iff_eq_none] at hnone
+    rw [hnone] at this
+    cases this
+
 end TH
